@@ -372,6 +372,16 @@ def input_kind_clause(model, rep, funcs):
     ok = len(conv) == 1 and not conv[0].orelse
     rep.ob("SLOT", f.anchor, "a numpy tomogram is wrapped with da.from_array and then follows the single dask code path", ok, "", node=f.node, fn=f,
            clause="6 input kind", stmt="construct_loading_tasks from_array")
+    from .generic import representation_branch_obligations
+    for a in ("acryo/loader/_loader.py::SubtomogramLoader.construct_loading_tasks", "acryo/classification/pca.py::PcaClassifier.__init__",
+              "acryo/pick/_base.py::BasePickerModel.pick_molecules", "acryo/loader/_loader.py::SubtomogramLoader.binning"):
+        try:
+            g = funcs.get(a) or model.func(a)
+        except Exception as e:
+            rep.error(f"anchor vanished: {e}")
+            continue
+        representation_branch_obligations(model, rep, g, "6 input kind")
+    rep.floor("REPR", 4, "(container-kind branches of the loader, the classifier and the picker)")
 
 
 # --------------------------------------------------------------------------- clause 7: task functions do not modify what they are given
